@@ -252,6 +252,8 @@ class C11(P.Property):
                 return
             if sid:
                 m = after.get(sid + "/service_meta")
+                if isinstance(m, tuple) and m[0] == "meta" and not (isinstance(m[1], dict) and isinstance(m[1].get("state"), int)):
+                    raise RuntimeError(f"harness: the client's service_meta has a format this check cannot decode: {m[1]!r:.80}")
                 if not (isinstance(m, tuple) and m[0] == "meta" and flags_of(m[1].get("state", -1)) == F):
                     viol.append(V("C11.flags", "STATE_MISMATCH", f"step {si}: persisted flags {m!r:.60} differ from the reference model {F} after {op}", site=op))
                     return
